@@ -16,6 +16,7 @@ import (
 	"fmt"
 	"os"
 	"path/filepath"
+	"runtime/debug"
 
 	"github.com/karino2/folang/pkg/frt"
 )
@@ -146,6 +147,7 @@ func VerifTickBudget() int64 {
 // VerifBudgetExceeded records that the step budget ran out and ends the process with status 97.
 func VerifBudgetExceeded() {
 	verifLog(map[string]any{"t": verifNow(), "op": "budget"})
+	os.Stderr.Write(debug.Stack())
 	os.Exit(97)
 }
 
